@@ -186,6 +186,31 @@ func init() {
 		w.ext["maxsymalloc"] = args[0].(*Term)
 		return nil
 	})
+	reg("verifnd.LoopBound", func(w *World, t *Thread, fr *frame, fn *ssa.Function, args []Value) Value {
+		name := w.concStr(fr, args[0], "function name")
+		n := int(w.concreteInt(fr, args[1], "loop bound"))
+		var m map[string]int
+		if v, ok := w.ext["loopbounds"]; ok {
+			m = v.(map[string]int)
+		} else {
+			m = map[string]int{}
+			w.ext["loopbounds"] = m
+		}
+		m[name] = n
+		return nil
+	})
+	reg("verifnd.Sequential", func(w *World, t *Thread, fr *frame, fn *ssa.Function, args []Value) Value {
+		w.ext["sequential"] = true
+		return nil
+	})
+	reg("verifnd.Prefer", func(w *World, t *Thread, fr *frame, fn *ssa.Function, args []Value) Value {
+		var l []*Term
+		if v, ok := w.ext["prefer"]; ok {
+			l = v.([]*Term)
+		}
+		w.ext["prefer"] = append(l[:len(l):len(l)], args[0].(*Term))
+		return nil
+	})
 	reg("verifnd.Thorough", func(w *World, t *Thread, fr *frame, fn *ssa.Function, args []Value) Value {
 		return w.tt.Bool(currentTier == "thorough")
 	})
